@@ -68,8 +68,9 @@ func pipeRequests(n int, prefix string) []pipeReq {
 }
 
 // judgePipelined checks the collected answers (raw JSON texts) against the requests.
-func judgePipelined(s Sink, kind string, reqs []pipeReq, answers [][]byte, extra string) {
+func judgePipelined(s Sink, kind string, reqs []pipeReq, answers [][]byte, extra string) (bad bool) {
 	vio := func(what, detail string, observed any) {
+		bad = true
 		s.Violate(hk.Violation{Fingerprint: "rpc:" + kind + ":pipelined:" + what,
 			What:     fmt.Sprintf("%s server, %d requests in flight at once (%s): %s", kind, len(reqs), extra, detail),
 			Input:    map[string]any{"requests": len(reqs), "first_request": clipS(string(reqs[0].body), 200), "shape": "distinct ids; tools/call echo with id-derived arguments of 0 B - 70 KB, ping, unknown method, failing tool"},
@@ -133,6 +134,7 @@ func judgePipelined(s Sink, kind string, reqs []pipeReq, answers [][]byte, extra
 		vio("duplicate-answers", fmt.Sprintf("%d ids were answered more than once", len(twice)), clipList(twice))
 	}
 	s.Count("pipelined:"+kind+":"+extra, len(missing) == 0, map[string]any{"server": kind, "requests": len(reqs), "answers": len(answers)}, "pipelined:"+kind)
+	return bad
 }
 
 func clipS(s string, n int) string {
